@@ -16,7 +16,8 @@ RULE = ('E2 histories; at generated publication steps (a cycle after '
         'publish a placement equal to its model. Non-trivial = a recorded '
         'step with >=1 deletion and >=1 creation of placement entries (a '
         'moved or replaced instance). distinct = canonical JSON; '
-        'crash_points = prefixes explored.')
+        'crash_points = prefixes explored.'
+        ' Since rounds 5-7: allocation changes, server deletion races and buckets leaving the cell right before a crashed publication step.')
 ASSUMPTIONS = [
     'a crash loses nothing but the not-yet-issued writes (ZooKeeper writes '
     'are atomic and ordered per session)',
